@@ -1,6 +1,7 @@
 package main
 
 import (
+	"go/ast"
 	"fmt"
 	"go/token"
 	"go/types"
@@ -39,7 +40,10 @@ func runC01(c *Ctx) {
 	c.Floor("C01.R3.PA2", n2, 5, "generator sites whose origin square comes from a piece set")
 	n4 := pa4(c, p, "C01.R3.PA4", inFuncs("movegen.*", "board.(*Board).IsAttacked", "board.(*Board).Attackers"))
 	c.Floor("C01.R3.PA4", n4, 2, "pawn-capture colour sites")
-	c.Floor("C01.R3.WRAP", pa5(c, p, "C01.R3.WRAP", inFuncs("movegen.*")), 4, "one-file bitboard shifts in the generator")
+	// (no floor: a generator that takes its pawn patterns from package attacks has no shift of its own)
+	if n := pa5(c, p, "C01.R3.WRAP", inFuncs("movegen.*")); n == 0 {
+		c.OkTrivial("C01.R3.WRAP", "none", 0, "the generator contains no one-file bitboard shift of a piece set")
+	}
 	c01R4(c, p, "C01.R4")
 	c01R5(c, p)
 	// en-passant captures are generated from the recorded target: the recording rule is part of C01 too
@@ -139,7 +143,11 @@ func findLegalityBranch(fn *ssa.Function, mk ssa.CallInstruction) (*legalityBran
 			for _, r := range *refs {
 				switch x := r.(type) {
 				case *ssa.If:
-					iff = x
+					// several tests of the same answer (`if illegal || futile {undo; if illegal {continue}; break}`):
+					// the one that decides first is the one that dominates the others
+					if iff == nil || x.Block().Dominates(iff.Block()) {
+						iff = x
+					}
 				case *ssa.UnOp:
 					if x.Op == token.NOT {
 						not = x
@@ -519,6 +527,105 @@ func bbFromSquaresConst(v ssa.Value) (uint64, bool) {
 	return m, true
 }
 
+// castleMaskTable: mask is a load of T[STM][side] (or T[side][STM], or T[STM]) from a package-level array literal whose
+// entries are constant bitboards / BitBoardFromSquares(...) of constants; returns the mask per colour for the given side.
+func castleMaskTable(p *Prog, mask ssa.Value, side int64) (map[string]uint64, bool) {
+	l, ok := stripConv(mask).(*ssa.UnOp)
+	if !ok || l.Op != token.MUL {
+		return nil, false
+	}
+	var idxs []ssa.Value
+	a := l.X
+	for {
+		ia, ok := a.(*ssa.IndexAddr)
+		if !ok {
+			break
+		}
+		idxs = append([]ssa.Value{ia.Index}, idxs...)
+		a = ia.X
+	}
+	g, ok := a.(*ssa.Global)
+	if !ok || g.Pkg == nil || len(idxs) == 0 || len(idxs) > 2 {
+		return nil, false
+	}
+	init, pk := p.pkgVarInit(relPkg(g.Pkg.Pkg.Path()) + "." + g.Name())
+	if init == nil || pk == nil || len(p.nonInitGlobalWriters(relPkg(g.Pkg.Pkg.Path())+"."+g.Name())) != 0 {
+		return nil, false
+	}
+	// read the literal into (i[,j]) -> value
+	type key struct{ i, j int64 }
+	vals := map[key]uint64{}
+	var read func(e ast.Expr, prefix []int64) bool
+	read = func(e ast.Expr, prefix []int64) bool {
+		cl, isCl := ast.Unparen(e).(*ast.CompositeLit)
+		if !isCl {
+			u, ok := evalBBExpr(pk.TypesInfo, e)
+			if !ok {
+				return false
+			}
+			k := key{-1, -1}
+			if len(prefix) > 0 {
+				k.i = prefix[0]
+			}
+			if len(prefix) > 1 {
+				k.j = prefix[1]
+			}
+			vals[k] = u
+			return true
+		}
+		next := int64(0)
+		for _, el := range cl.Elts {
+			v := el
+			if kv, isKV := el.(*ast.KeyValueExpr); isKV {
+				kk, ok := constInt(pk.TypesInfo, kv.Key)
+				if !ok {
+					return false
+				}
+				next = kk
+				v = kv.Value
+			}
+			if !read(v, append(append([]int64(nil), prefix...), next)) {
+				return false
+			}
+			next++
+		}
+		return true
+	}
+	if !read(init, nil) {
+		return nil, false
+	}
+	// which index is the colour, which the side
+	out := map[string]uint64{}
+	for ci, cname := range []string{"White", "Black"} {
+		var k key
+		k.j = -1
+		switch len(idxs) {
+		case 1:
+			if !isFieldLoad(stripConv(idxs[0]), "Board.STM") {
+				return nil, false
+			}
+			k.i = int64(ci)
+		case 2:
+			s0, c0 := constOf(idxs[0])
+			s1, c1 := constOf(idxs[1])
+			switch {
+			case isFieldLoad(stripConv(idxs[0]), "Board.STM") && c1 && s1 == side:
+				k.i, k.j = int64(ci), side
+			case isFieldLoad(stripConv(idxs[1]), "Board.STM") && c0 && s0 == side:
+				k.i, k.j = side, int64(ci)
+			default:
+				return nil, false
+			}
+		}
+		u, ok := vals[k]
+		if !ok {
+			return nil, false
+		}
+		out[cname] = u
+	}
+	return out, true
+}
+
 // castleMethods finds the generator methods that consult Castle(STM, side) and reads their
 // castling facts from the SSA (robust against guard clauses, merged conditions, if/switch forms).
 func castleMethods(c *Ctx, p *Prog, rule string) []castleFacts {
@@ -558,10 +665,20 @@ func castleMethods(c *Ctx, p *Prog, rule string) []castleFacts {
 		cf.AttackArg = "mask"
 		ph, isPhi := mask.(*ssa.Phi)
 		if !isPhi {
-			c.Undec(rule, name+"#mask", fn.Pos(), "the squares tested for attack are not a per-colour choice of constant square sets")
-			continue
+			// a package-level table of masks indexed by the side to move (and the castling side)
+			if tab, ok := castleMaskTable(p, mask, side); ok {
+				cf.Mask = tab
+			} else {
+				c.Undec(rule, name+"#mask", fn.Pos(), "the squares tested for attack are not a per-colour choice of constant square sets")
+				continue
+			}
 		}
-		for i, e := range ph.Edges {
+		for i, e := range func() []ssa.Value {
+			if isPhi {
+				return ph.Edges
+			}
+			return nil
+		}() {
 			if k, isc := constOf(e); isc && k == 0 {
 				continue
 			}
